@@ -330,14 +330,175 @@ def rename_torrent_payload(run, box, outdir, case):
             os.remove(full)
 
 
+# --------------------------------------------------------------------------- output paths behind link chains
+
+CHAIN_RULE = ("; create (CLI create/new/implicit, with and without -q/-v, and the creator classes of "
+              "all three versions) with an output path that is a chain of 1..3 symbolic links "
+              "(relative and absolute targets, links in the output directory and elsewhere, final "
+              "target existing / not existing / in another directory, output path spelled absolute "
+              "or relative to the working directory): the snapshot may differ in exactly the entry "
+              "at the end of the chain, a regular file; every link is still the same link")
+
+CHAIN_VIAS = ["create", "new", "implicit", "-q create", "-q new", "-q implicit", "-v create",
+              "lib:v1", "lib:v2", "lib:hy", "lib:a2", "lib:a3"]
+CHAIN_DIRS = ["out", "out/releases", "links", "work"]
+CHAIN_NAMES = ["latest.torrent", "current.torrent", "stable.torrent", "alias.torrent"]
+
+
+def chain_shape(via, version, dirs, styles, final_dir, final, spelled):
+    """dirs[i] / styles[i]: where link i lives (dirs[0] is the directory of the output path) and
+    whether its target is written relative to its own directory or absolute."""
+    return {"via": via, "version": version, "dirs": list(dirs), "styles": list(styles),
+            "final_dir": final_dir, "final": final, "spelled": spelled}
+
+
+def fixed_chain_shapes():
+    """Deterministic shapes: every way of running create meets every chain length with an absent
+    and with an existing final target; target style, directories and spelling rotate."""
+    shapes = []
+    n = 0
+    for length in (1, 2, 3):
+        for final in ("absent", "existing"):
+            for via in CHAIN_VIAS:
+                for final_dir in ("out/releases", "out"):
+                    style = (["rel"] * length, ["abs"] * length,
+                             [("rel", "abs")[(i + n) % 2] for i in range(length)])[n % 3]
+                    # the links after the first one: beside the first, or in a directory of their own
+                    dirs = ["out"] + [("out", "links")[(n // 2 + i) % 2] for i in range(1, length)]
+                    if n % 4 == 1:
+                        dirs = ["out"] * length
+                    shapes.append(chain_shape(via, 1 + (n // 2 + n // 24) % 3, dirs, style, final_dir, final,
+                                              "abs" if n % 5 else "rel"))
+                    n += 1
+    # the plain case first: out/latest.torrent -> current.torrent -> releases/v2.torrent (absent)
+    shapes.insert(0, chain_shape("create", 1, ["out", "out"], ["rel", "rel"], "out/releases", "absent", "abs"))
+    return shapes
+
+
+def random_chain_shape(rng):
+    length = rng.choice([1, 2, 2, 3, 3, 4])
+    return chain_shape(rng.choice(CHAIN_VIAS), rng.choice([1, 2, 3]),
+                       ["out" if rng.random() < 0.7 else rng.choice(CHAIN_DIRS)] +
+                       [rng.choice(CHAIN_DIRS) for _ in range(length - 1)],
+                       [rng.choice(["rel", "abs"]) for _ in range(length)],
+                       rng.choice(CHAIN_DIRS), rng.choice(["absent", "absent", "existing", "missing-dir"]),
+                       rng.choice(["abs", "rel"]))
+
+
+def chain_case(run, shape):
+    """One create whose output path is the first link of a chain; judged by the snapshot only."""
+    from harness.common import quiet
+    with sandbox("c18") as box:
+        work = os.path.join(box, "work")
+        for d in CHAIN_DIRS:
+            os.makedirs(os.path.join(box, d), exist_ok=True)
+        name = "payload-chain"
+        root = os.path.join(work, name)
+        write_tree(root, [("a.bin", bytes(range(256)) * 79), ("sub/b.bin", b"\x01\x02\x03\x04" * 4096),
+                          ("sub/c", b"")])
+        # bystanders wherever a link or the final target lives
+        for d in CHAIN_DIRS:
+            write_tree(os.path.join(box, d), [("notes.txt", b"keep me\n"), (".torrent", b"precious bystander")])
+        final_dir = shape["final_dir"] + ("/not-there" if shape["final"] == "missing-dir" else "")
+        # (one name per position: two links of the chain in one directory never collide)
+        nodes = [os.path.join(box, d, CHAIN_NAMES[i] if i < len(CHAIN_NAMES) else f"hop{i}.torrent")
+                 for i, d in enumerate(shape["dirs"])]
+        final = os.path.join(box, final_dir, "v2.torrent")
+        nodes.append(final)
+        if shape["final"] == "existing":
+            with open(final, "wb") as fd:
+                fd.write(b"older, longer contents " * 300)
+        for i, style in enumerate(shape["styles"]):
+            target = nodes[i + 1]
+            if style == "rel":
+                target = os.path.relpath(target, os.path.dirname(nodes[i]))
+            os.symlink(target, nodes[i])
+        outpath = nodes[0] if shape["spelled"] == "abs" else os.path.relpath(nodes[0], work)
+        c = {"link_chain": shape}
+        old_cwd = os.getcwd()
+        os.chdir(work)
+        try:
+            before = snapshot(box)
+            raised = None
+            with effects.traced(fence=[box]) as tr:
+                try:
+                    if shape["via"].startswith("lib:"):
+                        cls, extra = impl.creator(shape["via"][4:])
+                        with quiet():
+                            cls(path=root, outfile=outpath, progress=0, **extra).write()
+                    else:
+                        words = shape["via"].split()
+                        argv = [w for w in words if w.startswith("-")] + \
+                               [w for w in words if not w.startswith("-") and w != "implicit"] + \
+                               ["--prog", "0", "--meta-version", str(shape["version"]), "-o", outpath, root]
+                        c["argv"] = [a.replace(box, "$BOX") for a in argv]
+                        impl.cli(argv)
+                except effects.Escape:
+                    raised = "Escape"
+                except BaseException as exc:  # noqa
+                    raised = type(exc).__name__
+            after = snapshot(box)
+        finally:
+            os.chdir(old_cwd)
+        diff = changed(before, after)
+        want = os.path.relpath(final, box)
+        links = {k: v for k, v in before.items() if v[0] == "l"}
+        broken = sorted(k for k, v in links.items() if after.get(k) != v)
+        if raised == "Escape":
+            run.fail("impl-vs-spec", c, {"why": "create tried to write outside the sandbox",
+                                         "ops": [str(e) for e in tr.escapes[:3]]})
+        elif broken:
+            run.fail("impl-vs-spec", c, {"why": "create through a chain of links removed or replaced a link",
+                                         "links": {k: [before[k], after.get(k)] for k in broken[:4]},
+                                         "changed": diff[:6], "raised": raised})
+        elif raised and not set(diff) <= {want}:
+            run.fail("impl-vs-spec", c, {"why": "failed create changed something other than the output metafile",
+                                         "changed": diff[:6], "raised": raised})
+        elif not raised and (diff != [want] or after[want][0] != "f"):
+            run.fail("impl-vs-spec", c, {"why": "create changed something other than exactly the one file at "
+                                                "the end of the link chain",
+                                         "changed": {k: [before.get(k), after.get(k)] for k in diff[:6]},
+                                         "expected": [want]})
+        elif not raised:
+            # "the output metafile": the one file written describes the payload
+            with open(final, "rb") as fd:
+                raw = fd.read()
+            try:
+                meta = dict(refspec.lenient_decode(raw))
+                ok = dict(meta[b"info"]).get(b"name") == name.encode()
+            except Exception:  # noqa
+                ok = False
+            if not ok:
+                run.fail("impl-vs-spec", c, {"why": "the file at the end of the link chain is not the metafile "
+                                                    "of the payload", "bytes": raw[:60].hex()})
+        run.case(["link-chain", shape["via"], len(shape["styles"]), shape["final"],
+                  "".join(s[0] for s in shape["styles"]), shape["final_dir"],
+                  len(set(shape["dirs"])) > 1, shape["spelled"]],
+                 True, sample=c, classes=["link-chain", "link-chain:len=" + str(len(shape["styles"])),
+                                          "link-chain:" + shape["final"], "raised:" + str(raised)])
+
+
+def link_chains(run, tier, rng):
+    for shape in fixed_chain_shapes():
+        chain_case(run, shape)
+    for _ in range(30 if tier == "quick" else 600):
+        chain_case(run, random_chain_shape(rng))
+
+
 def run(tier, seed, replay=None):
     impl.use_repo()
-    run = Run("C18", tier, seed, RULE)
+    run = Run("C18", tier, seed, RULE + CHAIN_RULE)
     drv = Driver()
-    seeds = [replay["case"]["case_seed"]] if replay else \
-        [run.rng.randrange(10 ** 9) for _ in range(40 if tier == "quick" else 400)]
+    if replay and "link_chain" in replay["case"]:
+        seeds = []
+        chain_case(run, replay["case"]["link_chain"])
+    else:
+        seeds = [replay["case"]["case_seed"]] if replay else \
+            [run.rng.randrange(10 ** 9) for _ in range(40 if tier == "quick" else 400)]
     for s in seeds:
         run_case(run, drv, s)
+    if not replay:
+        link_chains(run, tier, random.Random(run.rng.randrange(10 ** 9)))
     for (kind, case, got), req, out in drv.run():
         if out.startswith("ERR"):
             if os.environ.get("VERIF_DEV") and "bad-op" in out:
